@@ -25,14 +25,18 @@ LEVEL = 'proof'
 TRANSLATE = ['persistent']
 TRUSTED = [
     'collections.deque (CPython) is the oracle of the differential monitor: results, exception classes and contents of Deque are compared with it after every call',
-    'the abstract queue cache of model/QCache.v stands for Cache.push/pull/peek/get/set/del/iterkeys on integer queue keys (C10/C03)',
+    'the abstract queue cache of model/QCache.v stands for Cache.push/pull/peek/get/set/del/iterkeys on integer queue keys (what C10/C03 establish for Cache with eviction_policy none and no expiry); tied to the implementation by comparing results, contents AND the integer queue keys after every call of every generated history',
+    'tools/emit_persistent.py templates: every Deque/Index method body is matched against a source template, the holes (guards, delegated calls with side/default/retry, exception translations, constructor settings, __getstate__, _make_compare) are compiled to Gen_Persistent.v and pinned by proofs/PersistentBridge.v',
+    'the value encoding of the correspondence (Python values -> integers, equal values equal ids, order-preserving within numbers/str/bytes); comparisons of incomparable elements (TypeError on both sides) are not sent to the model',
     'value identity is Python == plus type() (recursively through tuples); the monitor does not look inside the stored bytes',
 ]
 ASSUMPTIONS = [
+    'the maxlen setter is given a non-negative integer (d.maxlen = None raises TypeError after storing None and leaves the handle unusable for append; outside the compared vocabulary, reported separately)',
     'fewer than 5*10^14 pushes per side (queue key range)',
     'no other writer stores into the deque directory',
     'reopen uses the maxlen the handle had (maxlen is kept in the object and its pickle, not on disk)',
     'values are compared with Python ==; iterators are consumed immediately',
+    'concurrent clause: each Deque call is one atomic step (one write transaction of the underlying Cache, C05/C06); C11_exactly_once is stated over all interleavings of atomic append/popleft (appendleft/pop) calls with maxlen None; on every scheduled run the calls are linearised by their COMMITs and replayed through the model',
 ]
 
 Deque = diskcache.Deque
@@ -1018,7 +1022,8 @@ def coq_history(h, upto=None):
 
 def history_case(h, upto=None):
     evs = h['events'] if upto is None else h['events'][:upto]
-    return {'check': 'deque_model', 'kind': h['kind'], 'maxlen': repr(h['maxlen']), 'init': [repr(v) for v in h['init']],
+    return {'check': 'deque_model', 'kind': h['kind'], 'stream': h.get('stream'), 'maxlen': h['maxlen'],
+            'init': [repr(v) for v in h['init']],
             'ops': [[e['op'], [repr(x) for x in e['args']]] for e in evs],
             'impl_results': [repr(e['res']) for e in evs], 'impl_contents': [repr(e['contents']) for e in evs][-3:]}
 
@@ -1098,6 +1103,7 @@ def conc_run(scenario, items, attempts, schedule, mkdir, max_steps=20000):
     wlock = threading.Lock()
     appended = [[] for _ in range(nprod)]
     got = [[] for _ in range(ncons)]
+    calls = [[] for _ in range(ncons)]       # outcome of every pop call in call order: the item, or None for IndexError
     empties = [0] * ncons
     total = sum(items)
 
@@ -1134,8 +1140,10 @@ def conc_run(scenario, items, attempts, schedule, mkdir, max_steps=20000):
                         v = d.popleft() if style == 'A' else d.pop()
                     except IndexError:
                         empties[c] += 1         # empty right now: the expected outcome, retry (bounded)
+                        calls[c].append(None)
                         continue
                     got[c].append(v)
+                    calls[c].append(v)
             finally:
                 d.cache.close()
             return len(got[c])
@@ -1179,7 +1187,41 @@ def conc_run(scenario, items, attempts, schedule, mkdir, max_steps=20000):
         usable = False
     result['global_order'] = usable
     problems += conc_monitor(style, nprod, appended, got, remaining, order if usable else None)
+    result['atomic_term'] = atomic_term(style, nprod, out['log'], appended, calls, remaining)
     return result
+
+
+def atomic_term(style, nprod, log, appended, calls, remaining):
+    """Correspondence of the atomic-operation layer (C11_exactly_once is stated over it): every Deque call is one write
+    transaction, so the calls are linearised by their COMMITs.  The Coq model is run on that sequence of atomic calls and must
+    produce the result of every call and the remaining contents.  Returns a Coq boolean term, or None if the log does not have
+    one COMMIT per call (then nothing is claimed)."""
+    ident = lambda it: it[0] * 1000 + it[1]       # noqa: E731
+    nxt = {}
+    events, results = [], []
+    for cid, what, _d in log:
+        if what != 'sql:COMMIT':
+            continue
+        k = nxt.get(cid, 0)
+        nxt[cid] = k + 1
+        if cid < nprod:
+            if k >= len(appended[cid]):
+                return None
+            events.append('EOp (%s %d)' % ('OAppend' if style == 'A' else 'OAppendLeft', ident(appended[cid][k])))
+            results.append('RNone')
+        else:
+            c = cid - nprod
+            if k >= len(calls[c]):
+                return None
+            events.append('EOp %s' % ('OPopLeft' if style == 'A' else 'OPop'))
+            v = calls[c][k]
+            results.append('RRaise IndexError' if v is None else '(RVal %d)' % ident(v))
+    if any(nxt.get(p, 0) != len(appended[p]) for p in range(nprod)) or \
+            any(nxt.get(nprod + c, 0) != len(calls[c]) for c in range(len(calls))):
+        return None
+    return ('let t := dq_trace (dq_new None []) %s in list_eqb res_eqb (map (fun o => fst (fst o)) t) %s && '
+            'zlist_eqb (match rev t with (_, v, _) :: _ => v | [] => [] end) %s'
+            % (fw.clist(events), fw.clist(results), fw.czlist([ident(x) for x in remaining])))
 
 
 def conc_monitor(style, nprod, appended, got, remaining, order):
@@ -1233,6 +1275,7 @@ def concurrent(ctx, res, nruns):
         ex.setdefault(k, 0)
     ex.setdefault('conc_by_scenario', {})
     seen = set()
+    atomic = []
     for k in range(nruns):
         scenario = SCENARIO_ORDER[k % len(SCENARIO_ORDER)]
         style, nprod, ncons = SCENARIOS[scenario]
@@ -1267,10 +1310,23 @@ def concurrent(ctx, res, nruns):
             seen.add(sig)
             res.violations.append(fw.Violation(sig, 'concurrent producers/consumers (%s): %s' % (scenario, desc),
                                                conc_case(scenario, items, attempts, r['schedule_used'], r, sig, desc)))
+        if r.get('atomic_term') and not r['problems']:
+            atomic.append((r['atomic_term'], conc_case(scenario, items, attempts, r['schedule_used'], r, 'deque_atomic_model',
+                                                       'model on the COMMIT-ordered calls')))
         if k == 0:
             res.sample({'conc_scenario': scenario, 'items': items, 'attempts': attempts, 'steps': r['steps'],
                         'popped': [[repr(x) for x in l] for l in r['popped']],
                         'remaining': [repr(x) for x in r['remaining']]}, limit=4)
+    ex['conc_runs_linearised_for_model'] = ex.get('conc_runs_linearised_for_model', 0) + len(atomic)
+    if atomic and not ctx.search_mode:
+        bad, errors = fw.coq_mismatches('c11a', COQ_IMPORTS, '', [t for t, _ in atomic], chunk=100)
+        res.traces_validated += len(atomic) - len(bad)
+        for e in errors:
+            res.disagreements.append(fw.Violation('model-eval', 'model evaluation failed: ' + e[-400:], {}, 'correspondence'))
+        for i in bad[:2]:
+            res.disagreements.append(fw.Violation(
+                'deque_atomic_model', 'the Deque model run on the COMMIT-ordered sequence of calls disagrees with the results the '
+                'concurrent clients saw', atomic[i][1], 'correspondence'))
 
 
 # ---------------------------------------------------------------------------
@@ -1307,9 +1363,17 @@ def search(ctx, broken):
 
 
 def replay(payload):
+    if payload.get('kind') == 'broken-obligation':
+        # no failing input was found by the monitors; re-run the histories attached to broken correspondences (if any)
+        ok = True
+        for ob in payload.get('obligations', []):
+            print('broken obligation: %s -- %s' % (ob.get('name'), str(ob.get('detail'))[:300]))
+            if isinstance(ob.get('case'), dict) and ob['case'].get('check'):
+                ok = replay({'case': ob['case']}) and ok
+        return ok
     case = payload.get('case', {})
     check = case.get('check')
-    if check == 'deque_history':
+    if check in ('deque_history', 'deque_model'):
         spec = {'id': 0, 'kind': case['kind'], 'stream': case.get('stream') or 'valid', 'maxlen': case['maxlen'],
                 'init': [unrepr(x) for x in case['init']]}
         ops = [(op, [unrepr(a) for a in args]) for op, args in case['ops']]
